@@ -1,10 +1,10 @@
 (* Props/C08.v — property theorems only; proofs live in Proofs/C08*.v.
 
    C08: ClassAds survive the wire; the decoder's literal shortcuts agree with the full parser;
-   the three receivers consume the same bytes. *)
+   the four receivers (parsing, raw-text, skipping, size-capped parsing) consume the same bytes. *)
 From Coq Require Import List NArith ZArith Bool.
 From Cedar Require Import Lib.Bytes Model.Msg Model.Privacy Model.AdWire Model.Literal Proofs.C08 Proofs.C08Wire.
-From Cedar Require Import Proofs.C14Reader Proofs.C14Writer Proofs.C14Roundtrip Proofs.C08Round Proofs.C08Bridge Proofs.C09Round.
+From Cedar Require Import Proofs.C14Reader Proofs.C14Writer Proofs.C14Roundtrip Proofs.C08Round Proofs.C08Bridge Proofs.C09Round Proofs.C08Cap Proofs.C08CapFit.
 Import ListNotations.
 
 (* For EVERY value text (any bytes), whatever strconv says about the range of a real:
@@ -99,6 +99,51 @@ Theorem C08_same_bytes : forall (t : treader) (x : received) (t1 : treader),
   get_ad_raw t = (t1, MOk x) -> exists t1', skip_ad t = (t1', MOk tt) /\ tsame t1 t1'.
 Proof. exact all_same_bytes. Qed.
 Print Assumptions C08_same_bytes.
+
+(* C08_capped_receiver_agrees: the FOURTH receiver, GetClassAdWithMaxSize(cap) (get_ad_capped: every wire
+   string - expression, SecretMarker, put_secret field, MyType, TargetType - read with
+   GetStringWithMaxSize(cap - charged so far), C13's model get_string_max, under the same crypto toggle).
+   In EVERY stream state, for ANY bytes in ANY framing, EVERY parser and EVERY cap (cap <= 0 = unlimited):
+   the capped receiver EITHER does not succeed OR returns exactly what the uncapped parsing receiver
+   GetClassAd returns on the same input AND ends with the same bytes unread (same buffer, same frames and
+   frame modes to come, same flags): never a successful short read, never an ad that lost a string. *)
+Theorem C08_capped_receiver_agrees : forall (parses : bytes -> bool) (cap : Z) (t t1 : treader) (x : received),
+  get_ad_capped parses cap t = (t1, MOk x) ->
+  exists t1', get_ad parses t = (t1', MOk x) /\ tsame t1 t1'.
+Proof. exact capped_agrees. Qed.
+Print Assumptions C08_capped_receiver_agrees.
+
+(* C08_capped_receiver_accepts_when_it_fits: on a plaintext or an encrypting stream, for EVERY ad, option set
+   (types not suppressed), whitelist and peer version: applied to the very frames the sender produced (single-
+   or multi-frame), the capped receiver SUCCEEDS as soon as the cap is at least what it charges for the ad -
+   len + 1 for every item (charged) - and returns exactly the sender's rendered items and type names.  With
+   C08_capped_receiver_agrees: below that it may only refuse.  (Keyed, non-encrypting streams: the example
+   below and the exhaustive cap sweep of the run.) *)
+Theorem C08_capped_receiver_accepts_when_it_fits : forall (c : config) (key enc : bool) (a : ad) (cap : Z),
+  secret_is_noop key enc = true ->
+  opt_no_types (c_opts c) = false ->
+  Forall (valid_str enc) (ad_items c a) ->
+  (Z.of_nat (length (ad_attrs a)) < 2 ^ 62)%Z ->
+  (charged (ad_items c a) <= cap)%Z ->
+  exists t1,
+    get_ad_capped (fun _ => true) cap (treader_of key enc (s_frames (s_finish (put_ad c (sstate_init key enc) a)))) =
+      (t1, MOk ((if opt_server_time (c_opts c) then [server_time_expr] else []) ++
+                map expr_text (attrs_to_send c (ad_attrs a)), ad_mytype a, ad_targettype a)).
+Proof. exact capped_fits. Qed.
+Print Assumptions C08_capped_receiver_accepts_when_it_fits.
+
+(* non-vacuous: on the sender's own frames (keyed, non-encrypting stream: marker + sealed frame) the capped
+   receiver succeeds with cap = the charged total (len + 1 of every wire string, the marker included) and
+   refuses one byte below it *)
+Example C08_capped_receiver_nonvacuous :
+  let c := {| Privacy.c_opts := 32; Privacy.c_whitelist := []; Privacy.c_enc_attrs := []; Privacy.c_peer := None |} in
+  let a := {| ad_attrs := [([x4e], [x31]); ([x43; x6c; x61; x69; x6d; x49; x64], [x22; x73; x22])];
+              ad_mytype := [x4d]; ad_targettype := [x4a] |} in
+  let t := treader_of true false (s_frames (s_finish (put_ad c (sstate_init true false) a))) in
+  let total := charged [[x4e; x20; x3d; x20; x31]; secret_marker; [x43; x6c; x61; x69; x6d; x49; x64; x20; x3d; x20; x22; x73; x22]; [x4d]; [x4a]] in
+  (exists t1, get_ad_capped (fun _ => true) total t = (t1, MOk ([[x4e; x20; x3d; x20; x31]; [x43; x6c; x61; x69; x6d; x49; x64; x20; x3d; x20; x22; x73; x22]], [x4d], [x4a]))) /\
+  (exists t1 e, get_ad_capped (fun _ => true) (total - 1) t = (t1, MErr e)).
+Proof. cbv zeta. split; [eexists|eexists; eexists]; vm_compute; reflexivity. Qed.
 
 (* the hypothesis is satisfiable on a realistic ad: a keyed, non-encrypting stream carrying a
    secret marker and a sealed frame, produced by the model sender *)
